@@ -81,6 +81,26 @@ def is_string_expr(e):
     return False
 
 
+def is_string_term(t):
+    """provenance term of a string-typed expression (literal, .format on a literal, f-string, % / + on a string, str())"""
+    if t is None:
+        return False
+    if t[0] == "const":
+        return isinstance(t[1], str)
+    if t[0] == "phi":
+        return all(is_string_term(a) for a in t[1])
+    if t[0] == "call":
+        f = t[1]
+        if f == ("global", "<f-string>") or f == ("global", "str"):
+            return True
+        if f[0] == "attr" and f[2] == "format" and is_string_term(f[1]):
+            return True
+        return False
+    if t[0] == "binop" and t[1] in ("Mod", "Add"):
+        return is_string_term(t[2])
+    return False
+
+
 def term_contains(t, pred):
     return prov.contains(t, pred)
 
@@ -160,7 +180,7 @@ def check(ck):
         ck.require(code is not None and code < 0, "C05.1b", label, "integer literal code",
                    "error code is not a (negative) integer literal: %s" % (dump(code_e) if code_e is not None else "default"),
                    q.loc(fi, n))
-        ck.require(msg_e is not None and is_string_expr(msg_e), "C05.1b", label + " message", "string-typed message",
+        ck.require(msg_e is not None and (is_string_expr(msg_e) or is_string_term(site.origin("message", 1))), "C05.1b", label + " message", "string-typed message",
                    "error message is not a string-typed expression: %s" % (dump(msg_e) if msg_e is not None else "default"),
                    q.loc(fi, n))
     ck.stat("fault_sites", n_sites)
